@@ -9,6 +9,7 @@
 #include <cctype>
 #include <chrono>
 #include <map>
+#include <functional>
 #include <set>
 #include <string>
 #include <vector>
@@ -199,6 +200,98 @@ static void check_select(const DeviceManager* dm, int kind, const std::string& p
     else if (want >= 0 && got != want) viol("not-first-match", std::string("select returned \"") + out.name + "\" but the first enumerated match is \"" + ENUM[want].name + "\"", spec);
 }
 
+// ---- device-manager life cycles: two managers (the driver libraries and their module globals are shared between them) are
+// initialised, used to open every identifier they enumerate, and destroyed in every well-formed order up to a length; each
+// sequence runs in a forked child.  Oracle: every enumerated identifier opens (kind and name as enumerated), nothing crashes.
+#include <sys/wait.h>
+static std::string open_all(DeviceManager* dm)
+{
+    uint32_t count = device_manager_count(dm);
+    for (uint32_t i = 0; i < count; ++i) {
+        DeviceIdentifier id; memset(&id, 0, sizeof id);
+        if (device_manager_get(&id, dm, i) != Device_Ok) return "device_manager_get failed for index " + std::to_string(i);
+        if (id.kind == DeviceKind_Camera) {
+            Camera* c = camera_open(dm, &id);
+            if (!c) return std::string("camera_open failed for enumerated \"") + id.name + "\"";
+            bool same = c->device.identifier.kind == id.kind && !strncmp(c->device.identifier.name, id.name, sizeof id.name);
+            camera_close(c);
+            if (!same) return std::string("opening \"") + id.name + "\" yields another device";
+        } else if (id.kind == DeviceKind_Storage) {
+            Storage* st = storage_open(dm, &id);
+            if (!st) return std::string("storage_open failed for enumerated \"") + id.name + "\"";
+            bool same = st->device.identifier.kind == id.kind && !strncmp(st->device.identifier.name, id.name, sizeof id.name);
+            storage_close(st);
+            if (!same) return std::string("opening \"") + id.name + "\" yields another device";
+        }
+    }
+    return "";
+}
+static void heap_traffic()
+{
+    // ordinary allocations between the calls: released blocks get reused and overwritten
+    void* p[64];
+    for (int r = 0; r < 2; ++r) {
+        for (int i = 0; i < 64; ++i) { size_t n = 8 + 8 * (size_t)(i % 16); p[i] = malloc(n); if (p[i]) memset(p[i], 0xDD, n); }
+        for (int i = 0; i < 64; ++i) free(p[i]);
+    }
+}
+static unsigned long long g_lifecycles;
+static void lifecycle_sequences(int maxlen)
+{
+    // ops: 0 init A, 1 init B, 2 open-all A, 3 open-all B, 4 destroy A, 5 destroy B
+    static const char* NAME[] = { "init(A)", "init(B)", "open-all(A)", "open-all(B)", "destroy(A)", "destroy(B)" };
+    std::vector<std::vector<int>> seqs;
+    std::vector<int> cur;
+    std::function<void(bool, bool, bool)> rec = [&](bool la, bool lb, bool used) {
+        if (!la && !lb && used && !cur.empty()) seqs.push_back(cur);
+        if ((int)cur.size() >= maxlen) return;
+        for (int op = 0; op < 6; ++op) {
+            bool isA = op % 2 == 0;
+            bool live = isA ? la : lb;
+            if (op < 2 && live) continue;
+            if (op >= 2 && !live) continue;
+            if (op >= 2 && op < 4 && !cur.empty() && cur.back() == op) continue; // the same open-all twice in a row adds nothing
+            cur.push_back(op);
+            bool na = la, nb = lb;
+            if (op == 0) na = true; if (op == 1) nb = true; if (op == 4) na = false; if (op == 5) nb = false;
+            rec(na, nb, used || (op >= 2 && op < 4));
+            cur.pop_back();
+        }
+    };
+    rec(false, false, false);
+    for (auto& sq : seqs) {
+        std::string spec; for (int op : sq) { if (!spec.empty()) spec += ";"; spec += NAME[op]; }
+        ++g_lifecycles;
+        int pfd[2]; if (pipe(pfd)) return;
+        fflush(stdout);
+        pid_t pid = fork();
+        if (pid == 0) {
+            close(pfd[0]);
+            alarm(20);
+            DeviceManager M[2] = { { nullptr }, { nullptr } };
+            std::string bad;
+            try {
+                for (int op : sq) {
+                    DeviceManager* dm = &M[op % 2];
+                    if (op < 2) { if (device_manager_init(dm, reporter) != Device_Ok) { bad = std::string(NAME[op]) + " failed"; break; } }
+                    else if (op < 4) { std::string r = open_all(dm); if (!r.empty()) { bad = std::string(NAME[op]) + ": " + r; break; } }
+                    else device_manager_destroy(dm);
+                    heap_traffic();
+                }
+            } catch (...) { bad = "an exception escaped"; }
+            if (!bad.empty()) { ssize_t w = write(pfd[1], bad.data(), bad.size()); (void)w; _exit(3); }
+            _exit(0);
+        }
+        close(pfd[1]);
+        char buf[400]; ssize_t n = read(pfd[0], buf, sizeof buf - 1); if (n < 0) n = 0; buf[n] = 0;
+        close(pfd[0]);
+        int st = 0; waitpid(pid, &st, 0);
+        if (WIFSIGNALED(st)) viol("crash-in-manager-life-cycle", "the process was killed by signal " + std::to_string(WTERMSIG(st)) + " during the sequence", spec);
+        else if (WEXITSTATUS(st) == 3) viol("enumerated-device-does-not-open-in-life-cycle", buf, spec);
+        else if (WEXITSTATUS(st) != 0) viol("manager-life-cycle-abnormal-exit", "exit status " + std::to_string(WEXITSTATUS(st)), spec);
+    }
+}
+
 int main(int argc, char** argv)
 {
     int maxlen = 3; std::string out, rp; int rkind = 1; int shard = 0, nshard = 1;
@@ -212,6 +305,7 @@ int main(int argc, char** argv)
         else { fprintf(stderr, "unknown arg %s\n", a.c_str()); return 2; }
     }
     auto t0 = std::chrono::steady_clock::now();
+    if (shard == 0 && rp.empty()) lifecycle_sequences(7);
     DeviceManager dm = { nullptr };
     DeviceStatusCode irc;
     try { irc = device_manager_init(&dm, reporter); } catch (...) { printf("{\"violations\":[{\"clause\":\"exception-escaped\",\"detail\":\"device_manager_init let an exception escape\",\"spec\":\"init\",\"count\":1}],\"samples\":[]}\n"); return 1; }
@@ -276,8 +370,8 @@ int main(int argc, char** argv)
     double wall = std::chrono::duration<double>(std::chrono::steady_clock::now() - t0).count();
     FILE* f = out.empty() ? stdout : fopen(out.c_str(), "w");
     auto esc = [](const std::string& s) { std::string o; for (char c : s) { if (c == '"' || c == '\\') o += '\\'; o += c; } return o; };
-    fprintf(f, "{\"maxlen\":%d,\"devices_enumerated\":%zu,\"patterns\":%zu,\"select_calls\":%llu,\"judged_by_reference_matcher\":%llu,\"weak_oracle_only\":%llu,\"get_calls\":%llu,\"devices_opened\":%llu,\"exhaustive\":true,\"wall_s\":%.3f,\"samples\":[",
-            maxlen, ENUM.size(), pats.size(), n_select, n_strong, n_weak, n_get, n_open, wall);
+    fprintf(f, "{\"manager_life_cycle_sequences\":%llu,\"maxlen\":%d,\"devices_enumerated\":%zu,\"patterns\":%zu,\"select_calls\":%llu,\"judged_by_reference_matcher\":%llu,\"weak_oracle_only\":%llu,\"get_calls\":%llu,\"devices_opened\":%llu,\"exhaustive\":true,\"wall_s\":%.3f,\"samples\":[",
+            g_lifecycles, maxlen, ENUM.size(), pats.size(), n_select, n_strong, n_weak, n_get, n_open, wall);
     for (size_t i = 0; i < ENUM.size() && i < 12; ++i) fprintf(f, "%s\"enumerated: kind %d %s\"", i ? "," : "", (int)ENUM[i].kind, esc(ENUM[i].name).c_str());
     fprintf(f, "],\"violations\":[");
     bool first = true;
